@@ -15,6 +15,13 @@ import (
 	"time"
 
 	apps "github.com/pingcap/advanced-statefulset/client/apis/apps/v1"
+	"github.com/pingcap/advanced-statefulset/client/apis/apps/v1/helper"
+	pcfake "github.com/pingcap/advanced-statefulset/client/client/clientset/versioned/fake"
+	pcinformers "github.com/pingcap/advanced-statefulset/client/client/informers/externalversions"
+	pcappsinformers "github.com/pingcap/advanced-statefulset/client/client/informers/externalversions/apps/v1"
+	"k8s.io/apimachinery/pkg/util/sets"
+	kubeinformers "k8s.io/client-go/informers"
+	kubefake "k8s.io/client-go/kubernetes/fake"
 	metav1 "k8s.io/apimachinery/pkg/apis/meta/v1"
 	"k8s.io/apimachinery/pkg/types"
 	"k8s.io/client-go/tools/cache"
@@ -173,9 +180,110 @@ func hdJudge(c *hdCase) string {
 	return ""
 }
 
+// The handlers the controller registers on the StatefulSet informer are function literals inside
+// NewStatefulSetController; to call the REAL ones the harness hands the constructor an informer that records the
+// handler it is given.
+type hdCapturingInformer struct {
+	cache.SharedIndexInformer
+	handlers *[]cache.ResourceEventHandler
+}
+
+func (i hdCapturingInformer) AddEventHandler(h cache.ResourceEventHandler) (cache.ResourceEventHandlerRegistration, error) {
+	*i.handlers = append(*i.handlers, h)
+	return i.SharedIndexInformer.AddEventHandler(h)
+}
+
+type hdSetInformer struct {
+	pcappsinformers.StatefulSetInformer
+	handlers *[]cache.ResourceEventHandler
+}
+
+func (i hdSetInformer) Informer() cache.SharedIndexInformer {
+	return hdCapturingInformer{i.StatefulSetInformer.Informer(), i.handlers}
+}
+
+type hdSetCase struct {
+	Kind    string `json:"set_event"` // add | delete | update-spec | update-status | update-delete-slots | update-label | update-pause | resync
+	Failure string `json:"failure,omitempty"`
+}
+
+func hdSetJudge(c *hdSetCase) string {
+	set := newStatefulSet(3)
+	set.UID = types.UID("self")
+	set.Generation = 4
+	set.ResourceVersion = "10"
+	client := pcfake.NewSimpleClientset(set)
+	kubeClient := kubefake.NewSimpleClientset()
+	f := pcinformers.NewSharedInformerFactory(client, 0)
+	kf := kubeinformers.NewSharedInformerFactory(kubeClient, 0)
+	var handlers []cache.ResourceEventHandler
+	ssc := NewStatefulSetController(kf.Core().V1().Pods(), hdSetInformer{f.Apps().V1().StatefulSets(), &handlers},
+		kf.Core().V1().PersistentVolumeClaims(), kf.Apps().V1().ControllerRevisions(), kubeClient, client)
+	if len(handlers) == 0 {
+		return "the controller registered no handler on the StatefulSet informer"
+	}
+	cur := set.DeepCopy()
+	cur.ResourceVersion = "11"
+	want := true
+	for _, h := range handlers {
+		switch c.Kind {
+		case "add":
+			h.OnAdd(cur, false)
+		case "delete":
+			h.OnDelete(cur)
+		case "update-spec":
+			r := int32(5)
+			cur.Spec.Replicas = &r
+			cur.Generation++
+			h.OnUpdate(set, cur)
+		case "update-status":
+			cur.Status.ReadyReplicas = 1
+			h.OnUpdate(set, cur)
+		case "update-delete-slots":
+			helper.SetDeleteSlots(cur, sets.NewInt32(1))
+			h.OnUpdate(set, cur)
+		case "update-label":
+			cur.Labels = map[string]string{"team": "x"}
+			h.OnUpdate(set, cur)
+		case "update-pause":
+			helper.SetPausedReconcile(cur, true)
+			h.OnUpdate(set, cur)
+		case "resync":
+			// the informer's periodic resync: the same object twice.  Not a change: the property demands nothing,
+			// the call only must not panic
+			want = false
+			h.OnUpdate(set, set)
+		}
+	}
+	n := 0
+	for ssc.queue.Len() > 0 {
+		k, _ := ssc.queue.Get()
+		if k.(string) == set.Namespace+"/"+set.Name {
+			n++
+		}
+		ssc.queue.Done(k)
+	}
+	if want && n == 0 {
+		return fmt.Sprintf("set event %q did not enqueue the set", c.Kind)
+	}
+	return ""
+}
+
 func TestReplayHandlers(t *testing.T) {
 	found := 0
 	seen := map[string]bool{}
+	for _, k := range []string{"add", "delete", "update-spec", "update-status", "update-delete-slots", "update-label", "update-pause", "resync"} {
+		c := &hdSetCase{Kind: k}
+		msg := hdSetJudge(c)
+		if msg == "" || seen[msg] || found >= 3 {
+			continue
+		}
+		seen[msg] = true
+		c.Failure = msg
+		out, _ := json.Marshal(c)
+		fmt.Printf("REPRODUCED %s\n", out)
+		found++
+	}
 	for _, other := range []string{"none", "nonmatching", "invalidselector", "matching"} {
 		for _, owner := range []string{"none", "set", "stale-uid", "other-kind"} {
 			for _, ev := range []string{"add", "update", "update-samerv", "update-from-stale-owner", "delete", "tombstone", "fail-16-times"} {
@@ -196,6 +304,6 @@ func TestReplayHandlers(t *testing.T) {
 		}
 	}
 	if found == 0 {
-		fmt.Println("NOT-REPRODUCED bounded search: 4 set populations x 4 owner shapes x 7 event shapes on addPod/updatePod/deletePod")
+		fmt.Println("NOT-REPRODUCED bounded search: 8 kinds of set event through the handlers the controller registers; 4 set populations x 4 owner shapes x 7 event shapes on addPod/updatePod/deletePod")
 	}
 }
